@@ -697,6 +697,28 @@ func plDropScenarios(thorough bool) ([]*plScenario, map[string]map[string]bool) 
 		out = append(out, &plScenario{Name: "drop:restart-replayed-drop", SrcN: 2, TgtN: 2, Colls: []*plColl{c}, Drivers: []plDriver{{Kind: "start", Coll: 0}}, HeavyBound: 1})
 		synth["drop:restart-replayed-drop"] = map[string]bool{"coll/default/c1": true}
 	}
+	// the task is paused and resumed (same channel manager) after the drop has been replayed, while the source catalog
+	// still lists the dropped object (its garbage collection has not run) and the downstream either has applied the
+	// request or still lists the object (the request is slow): the drop is not requested a second time
+	for _, slow := range []bool{false, true} {
+		tag := map[bool]string{false: "", true: "/slow-target"}[slow]
+		{
+			sc := plShardedScenario("drop:partition/pause-resume"+tag, 2, func(i int) []plPack { return []plPack{pkInsPart(int64(1000 + i)), pkDropPart(1050)} })
+			withPartition(sc.Colls[0], true)
+			sc.Colls[0].SeekMs = 990 // (the first life starts from a checkpoint too: the handlers keep the seek position they were created with)
+			sc.Drivers = append(sc.Drivers, plDriver{Kind: "addpart", Coll: 0, Part: "p1", PartState: pb.PartitionState_PartitionCreated},
+				plDriver{Kind: "resume", Coll: 0, AfterDrop: true, ResumeSeekMs: 1060, Part: "p1", PartState: pb.PartitionState_PartitionDropped})
+			sc.HeavyBound, sc.SlowDropOnTarget = 1, slow
+			out = append(out, sc)
+		}
+		{
+			sc := plShardedScenario("drop:collection/pause-resume"+tag, 2, func(i int) []plPack { return []plPack{pkIns(int64(1000 + i)), pkDropColl(1050)} })
+			sc.Colls[0].SeekMs = 990
+			sc.Drivers = append(sc.Drivers, plDriver{Kind: "resume", Coll: 0, AfterDrop: true, ResumeSeekMs: 1060, ResumeDropped: true})
+			sc.HeavyBound, sc.SlowDropOnTarget = 1, slow
+			out = append(out, sc)
+		}
+	}
 	// the same collection is announced a second time (list + watch both report it): no second replication, no second drop
 	{
 		sc := plShardedScenario("drop:announced-twice", 2, func(i int) []plPack { return []plPack{pkIns(int64(1000 + i)), pkDropColl(1050)} })
@@ -734,7 +756,7 @@ func TestVerifC04Drop(t *testing.T) {
 		props := "14"
 		if sc.Name == "drop:announced-twice" {
 			props = "14"
-		} else if strings.Contains(sc.Name, "stop") || strings.Contains(sc.Name, "restart") {
+		} else if strings.Contains(sc.Name, "stop") || strings.Contains(sc.Name, "restart") || strings.Contains(sc.Name, "pause-resume") {
 			props = "4" // a stopped stream is cut short by design; a synthetic drop message was never read from the source
 		}
 		wrapped = append(wrapped, plWrap(sc, plCheck{props: props, synthetic: synth[sc.Name]}))
